@@ -88,7 +88,15 @@ FullPool == <<
   \* 29, 30: two calls that fail to iterate an instance of the same unregistered type, reached at
   \* different paths: each error (message, path) is the call's own
   Call(TOA, <<>>, 29, STuple(<<Pa, SProbe("id"), SEach("list", SProbe("id"))>>)),
-  Call(TOA, <<>>, 30, STuple(<<P("b.c", <<"b", "c">>), SProbe("id"), SEach("list", SProbe("id"))>>))
+  Call(TOA, <<>>, 30, STuple(<<P("b.c", <<"b", "c">>), SProbe("id"), SEach("list", SProbe("id"))>>)),
+  \* 31-33: callables raising DISTINCT exception classes with the same __name__, in different calls
+  \* (33: one in a nested call whose failure is swallowed, then the other in the outer call)
+  Call(L5, <<>>, 31, SProbe("boomA")),
+  Call(L5, <<>>, 32, SProbe("boomB")),
+  Call(T1, <<>>, 33, STuple(<<SCoal(<<SNest(Call(L5, <<>>, 31, SProbe("boomA")))>>, Default(VInt(0))), SProbe("boomB")>>)),
+  \* 34, 35: ONE spec object binding Vars(<plain dict>), writing into it, a yield, then the read
+  Call(L12, <<>>, 34, SLastY(0)),
+  Call(VList(<<>>), <<>>, 34, SLastY(0))
 >>
 C20Pool == SubSeq(FullPool, PoolFrom, PoolFrom + PoolSize - 1)
 
